@@ -163,6 +163,15 @@ def cast_to_numeric(x: Any) -> int | float | bool:
         return True
     if str(x).lower() == "false":
         return False
+    # Integers are exact as they are: going through float() would round any integer
+    # beyond 2**53 (and then fail the comparison below and return the rounded float).
+    if isinstance(x, int):
+        return x
+    if isinstance(x, str):
+        try:
+            return int(x)
+        except ValueError:
+            pass
     if float(x) == int(x):
         return int(x)
     return float(x)
